@@ -704,6 +704,39 @@ int main(int argc, char** argv) {
     }
   }
 
+  // ============================================================== subcheck: dense round-trip lattice for strongly flattened ellipsoids (exact class)
+  // sigmainv's Newton iteration needs most of its 10 steps on a thin filament near lat 20-25, 70-88 deg from the central meridian for f = 0.1 (f = 0.05: control)
+  for (int pi = 0; pi < NPAR; ++pi) {
+    const Par& P = PARS[pi];
+    const std::string pn = P.name;
+    if (!(pn == "f=+0.1" || pn == "f=+0.05")) continue;
+    Geo G(P);
+    std::vector<Impl> all = make_impls(P), impls;
+    for (auto& I : all) if (!I.series && !I.extendp) impls.push_back(I);
+    const ld ascale = G.a / WGS84_A, tolp = 16e-9L * ascale;
+    ctx.bound("exact-dense-flat", "TransverseMercatorExact and TransverseMercator(exact=true) on f = 0.1 and f = 0.05: lat +-(18 .. 27) x dlon +-(70 .. 88), step 0.125 deg: Reverse(Forward) as ground distance at 2 x 8 nm");
+    ctx.sub(std::string("exact-dense-flat/") + P.name);
+    for (int il = 144; il <= 216; ++il) for (int sl = 1; sl >= -1; sl -= 2) {
+      if (!ctx.take()) continue;
+      const double lat = sl * il / 8.0;
+      ld sphi, cphi; tm_ode::sincosd<ld>(lat, sphi, cphi);
+      const ld Mr = G.Mrad(sphi), Pr = G.Prad(sphi, cphi);
+      for (int jl = 560; jl <= 704; ++jl) for (int sd = 1; sd >= -1; sd -= 2) for (const Impl& I : impls) {
+        const double dlon = sd * jl / 8.0;
+        mc::Ctx::Case cs(ctx);
+        double x, y, g, k, la2, lo2, g2, k2;
+        I.fwd(0, lat, dlon, x, y, g, k); I.rev(0, x, y, la2, lo2, g2, k2);
+        ld e1 = hypotl(((ld)la2 - lat) * DEGL * Mr, angdiff((ld)lo2, (ld)dlon) * DEGL * Pr);
+        ld t = tolp + 4 * 1.1e-16L * hypotl((ld)x, (ld)y) / (ld)k;
+        auto W = [&]() { return std::string(P.name) + " " + I.name + " lat=" + fmt(lat) + " dlon=" + fmt(dlon); };
+        ctx.worstf(std::string("exact-dense-flat.") + P.name + ".roundtrip/tol", (double)(e1 / t), W);
+        if (!(e1 <= t)) ctx.fail(W() + " flat-roundtrip", W() + ": Reverse(Forward) = lat " + fx(la2) + " lon " + fx(lo2) + ", " + mc::fmtl(e1) + " m on the ground > " + mc::fmtl(t),
+                                 {{"kind", "flat-roundtrip"}, {"param", P.name}, {"impl", I.name}, {"lat", fmt(lat)}, {"dlon", fmt(dlon)}, {"point", fmt(std::fabs(lat)) + "," + fmt(std::fabs(dlon))}});
+        if (!(e1 <= t)) ctx.count(std::string("flat-roundtrip-fails: ") + P.name + " | " + fmt(std::fabs(lat)) + "," + fmt(std::fabs(dlon)) + (e1 > 1 ? " | gross" : " | nm"));
+      }
+    }
+  }
+
   // ============================================================== subcheck: polar rings
   // Rings from 100 m to 30 km around both poles (90 - {0.001 .. 0.3} deg), where Reverse goes through the large-tau branch of Math::tauf (asymptotic start value,
   // early return above taumax).  Forward -> Reverse -> Forward in ground distance (a longitude error near the pole is harmless: it is weighted by nu cos(lat)),
